@@ -26,10 +26,11 @@ const (
 	ecCancelledCode
 	ecProtocol // handler answers with a protocol error (fatal: the connection goes down)
 	ecOther    // remaining codes (0x08, 0x40)
+	ecNetTimeoutErr // the attempt itself returns a net.Error whose Timeout() is true (a socket deadline firing in application code)
 	ecCount
 )
 
-var ecNames = []string{"busy", "declined", "bad-request", "network(cut)", "network(refused)", "unexpected", "timeout(local)", "timeout(code)", "cancelled(code)", "protocol", "other-code"}
+var ecNames = []string{"busy", "declined", "bad-request", "network(cut)", "network(refused)", "unexpected", "timeout(local)", "timeout(code)", "cancelled(code)", "protocol", "other-code", "network(net.Error timeout)"}
 
 // specCanRetry is the retry table written from the documentation (the
 // statement of C17), independently of the implementation.
@@ -43,7 +44,7 @@ func specCanRetry(policy int, class int) bool {
 		return true
 	case ecBadRequest:
 		return false
-	case ecNetworkCut, ecNetworkRefused:
+	case ecNetworkCut, ecNetworkRefused, ecNetTimeoutErr:
 		return name == "connection-error" || name == "default" || name == "idempotent"
 	case ecUnexpected:
 		return name == "unexpected" || name == "idempotent"
@@ -172,6 +173,14 @@ func famRetry(w *World) {
 		s := seen{attempt: rs.Attempt, prev: sortedKeys(rs.SelectedPeers)}
 		var call *tchannel.OutboundCall
 		var err error
+		if class == ecNetTimeoutErr && rs.Attempt != succAt {
+			// a genuine network timeout error from the application's own socket use
+			attempts++ // (counts as an attempt "that got through" for the server-side tally)
+			s.err = errTimeout
+			calls = append(calls, s)
+			w.event("attempt", "#%d returns %v (net.Error, Timeout()=true)", s.attempt, errTimeout)
+			return errTimeout
+		}
 		switch {
 		case how == 1 && rs.Attempt%2 == 1:
 			// by host:port: the first peer this request has not tried yet
